@@ -9,7 +9,7 @@
 //!
 //! Protocol clause: repeating `split`/`rsplit` (non-empty delimiter) yields the reference split
 //! sequence (first-/last-occurrence cuts, the same reference as C06, tied to std there and in
-//! `c14_spec_vs_std_char`) and then `ErrorKind::SplitExhausted`; `split_terminator` /
+//! `c14_spec_*_char`) and then `ErrorKind::SplitExhausted`; `split_terminator` /
 //! `rsplit_terminator` yield every piece of that sequence except the last one (the pieces that
 //! are followed / preceded by a delimiter) and then fail.
 use crate::hlib::*;
@@ -192,31 +192,35 @@ macro_rules! c14_trim_matches_char {
 c14_trim_matches_char! {c14_trim_start_matches_char, trim_start_matches, "C14.trim_start_matches.eq_string_trim_start_matches"}
 c14_trim_matches_char! {c14_trim_end_matches_char, trim_end_matches, "C14.trim_end_matches.eq_string_trim_end_matches"}
 
-macro_rules! c14_trim_matches_both {
-    ($name:ident, $h:literal) => {
-        harness! {
-            /// kind=bounded tier=quick bound="valid UTF-8 remainder<=3 bytes; two-sided trim_matches with a &str pattern<=2 bytes (empty included) or a char pattern (any char); thorough twin: <=4 bytes"
-            #[kani::unwind(8)]
-            #[kani::stub(konst_kernel::string::non_char_boundary_panic, crate::hlib::stub_non_char_boundary_panic)]
-            fn $name(s) {
-                let hs = BStr::<$h>::any(s);
-                let h = hs.as_str();
-                let p = mk(s, h);
-                if s.bool() {
-                    let ps = BStr::<2>::any(s);
-                    let pat = ps.as_str();
-                    chk!(s, rem_eq(p.trim_matches(pat).remainder(), string::trim_matches(h, pat)), "C14.trim_matches.eq_string_trim_matches");
-                    cov!(s, pat.len() == 1 && string::trim_matches(h, pat).len() == 1 && h.len() == 3, "C14.cover.trim_matches_str_both_ends");
-                } else {
-                    let c = s.char();
-                    chk!(s, rem_eq(p.trim_matches(c).remainder(), string::trim_matches(h, c)), "C14.trim_matches.eq_string_trim_matches");
-                    cov!(s, c.len_utf8() == 1 && string::trim_matches(h, c).len() == 1 && h.len() == 3, "C14.cover.trim_matches_char_both_ends");
-                }
-            }
-        }
-    };
+harness! {
+    /// kind=bounded tier=quick bound="valid UTF-8 remainder<=3 bytes; two-sided trim_matches with a &str pattern<=2 bytes (empty included); thorough twin: <=4 bytes"
+    #[kani::unwind(7)]
+    #[kani::stub(konst_kernel::string::non_char_boundary_panic, crate::hlib::stub_non_char_boundary_panic)]
+    fn c14_trim_matches_both_ends_str(s) {
+        let hs = BStr::<3>::any(s);
+        let h = hs.as_str();
+        let p = mk(s, h);
+        let ps = BStr::<2>::any(s);
+        let pat = ps.as_str();
+        chk!(s, rem_eq(p.trim_matches(pat).remainder(), string::trim_matches(h, pat)), "C14.trim_matches.eq_string_trim_matches");
+        cov!(s, pat.len() == 1 && string::trim_matches(h, pat).len() == 1 && h.len() == 3, "C14.cover.trim_matches_str_both_ends");
+        cov!(s, pat.len() == 0 && h.len() == 3, "C14.cover.trim_matches_str_empty_pattern");
+    }
 }
-c14_trim_matches_both! {c14_trim_matches_both_ends, 3}
+
+harness! {
+    /// kind=bounded tier=quick bound="valid UTF-8 remainder<=3 bytes; two-sided trim_matches with a char pattern (any char); thorough twin: <=4 bytes"
+    #[kani::unwind(7)]
+    #[kani::stub(konst_kernel::string::non_char_boundary_panic, crate::hlib::stub_non_char_boundary_panic)]
+    fn c14_trim_matches_both_ends_char(s) {
+        let hs = BStr::<3>::any(s);
+        let h = hs.as_str();
+        let p = mk(s, h);
+        let c = s.char();
+        chk!(s, rem_eq(p.trim_matches(c).remainder(), string::trim_matches(h, c)), "C14.trim_matches.eq_string_trim_matches");
+        cov!(s, c.len_utf8() == 1 && string::trim_matches(h, c).len() == 1 && h.len() == 3, "C14.cover.trim_matches_char_both_ends");
+    }
+}
 
 harness! {
     /// kind=bounded tier=thorough bound="valid UTF-8 remainder<=4 bytes; two-sided trim_matches with a &str pattern<=2 bytes (empty included)"
